@@ -640,7 +640,16 @@ pub fn execute(plan: &Plan, ctx: &mut Ctx) {
                     }
                 }
             }
+            // an encoder wrapper whose own terminal follows a state getter: the wrapper updates its terminal
+            // (which pulls the followed state into the own slot) BEFORE it writes the reading, so a present
+            // reading ends up in the slot and the followed state only when the encoder delivers nothing
+            let mut enc_followed: Option<(i64, [u32; 3])> = None;
             for &k in ts.iter() {
+                if let (Some(f), DevSpec::Enc) = (fol[k], spec) {
+                    enc_followed = Some(f);
+                    ctx.count("reach.encoder_terminal_follows_getter");
+                    continue;
+                }
                 if let Some(f) = fol[k] {
                     if model[k].partner.is_some() || !matches!(spec, DevSpec::Invert | DevSpec::Gear(_) | DevSpec::GearTeeth(_) | DevSpec::Axle(_) | DevSpec::Diff(_)) {
                         unmodelled = true;
@@ -668,7 +677,7 @@ pub fn execute(plan: &Plan, ctx: &mut Ctx) {
                 ctx.count("n.unmodelled_follower_update");
                 false
             } else {
-                check_update(ctx, plan, i, spec, ts, &pre, &snaps, ret, &devs[d], motor_before, enc_updates_before, enc_had_pending, twins.get_mut(&d), fb_wrote)
+                check_update(ctx, plan, i, spec, ts, &pre, &snaps, ret, &devs[d], motor_before, enc_updates_before, enc_had_pending, twins.get_mut(&d), fb_wrote, enc_followed)
             };
             if tie {
                 // different commands with equal stamps met at this device (a kinematic loop
@@ -936,6 +945,7 @@ fn check_update(
     enc_had_pending: bool,
     twin: Option<&mut PidTwin>,
     fb_wrote: Option<(i64, [u32; 3])>,
+    enc_followed: Option<(i64, [u32; 3])>,
 ) -> bool {
     let mut tie_seen = false;
     let reads: Vec<Option<(i64, [u32; 3])>> = ts.iter().map(|&k| rd_state(&pre[k].rd_s)).collect();
@@ -1270,11 +1280,15 @@ fn check_update(
             if h.pending.borrow().is_none() && enc_had_pending {
                 ctx.count("reach.encoder_reading_changes_in_update");
             }
-            let untouched = if fb_wrote.is_some() { fb_wrote } else { pre[k].own_s };
+            // slot when the wrapper writes nothing: what the inner object wrote from its update() if it did,
+            // else what was there; and, once the wrapper has got past the inner update and refreshed its
+            // terminal, the followed state if the terminal follows a getter that holds one
+            let after_inner_update = if fb_wrote.is_some() { fb_wrote } else { pre[k].own_s };
+            let untouched = if enc_followed.is_some() { enc_followed } else { after_inner_update };
             let (want_slot, want_ret) = match (h.update_err.get(), cur) {
                 (Some(e), _) => {
                     ctx.count("fault.inner_update_err");
-                    (untouched, Some(er_of(e)))
+                    (after_inner_update, Some(er_of(e)))
                 }
                 (None, Out::Err(e)) => {
                     ctx.count("fault.inner_get_err");
